@@ -231,6 +231,18 @@ pub struct ColorIter<'a> {
     pub pos: u64,
     pub calls: u64,
     pub max_calls: u64,
+    /// what `size_hint` reports: 0 exact, 1 the default (0, None), 2 a lower bound of at most
+    /// one, 3 an upper bound larger than what will be yielded - all of them legal
+    pub hint: u8,
+}
+
+fn hint_of(mode: u8, remaining: usize) -> (usize, Option<usize>) {
+    match mode & 3 {
+        0 => (remaining, Some(remaining)),
+        1 => (0, None),
+        2 => (remaining.min(1), None),
+        _ => (0, Some(remaining.saturating_add(5))),
+    }
 }
 
 impl<'a> Iterator for ColorIter<'a> {
@@ -266,7 +278,7 @@ impl<'a> Iterator for ColorIter<'a> {
     }
     fn size_hint(&self) -> (usize, Option<usize>) {
         let r = (self.colors.len() - self.pos).min(usize::MAX as u64) as usize;
-        (r, Some(r))
+        hint_of(self.hint, r)
     }
 }
 
@@ -274,6 +286,7 @@ struct PixIter<'a> {
     v: &'a [(i32, i32, u32)],
     i: usize,
     calls: u64,
+    hint: u8,
 }
 impl<'a> Iterator for PixIter<'a> {
     type Item = (i32, i32, u32);
@@ -287,6 +300,9 @@ impl<'a> Iterator for PixIter<'a> {
             self.i += 1;
         }
         r
+    }
+    fn size_hint(&self) -> (usize, Option<usize>) {
+        hint_of(self.hint, self.v.len() - self.i)
     }
 }
 
@@ -308,22 +324,22 @@ fn viol(case: &Case, class: &str, call: &str, op_index: i64, detail: String) -> 
     Violation { property: case.property.clone(), class: class.to_string(), call: call.to_string(), op_index, detail }
 }
 
-fn call_op(d: &mut dyn dut::Dut<'_>, op: &Op, clk: &mut SimClock, space: u32, visible: u64) -> DR {
+fn call_op(d: &mut dyn dut::Dut<'_>, op: &Op, clk: &mut SimClock, space: u32, visible: u64, hint: u8) -> DR {
     match op {
         Op::Reinit { .. } => unreachable!("handled by the executor"),
         Op::SetPixel { x, y, c } => d.set_pixel(*x, *y, *c & (space - 1)),
         Op::SetPixels { sx, sy, ex, ey, colors } => {
-            let mut it = ColorIter { colors, space, pos: 0, calls: 0, max_calls: colors.len() * 2 + 4096 };
+            let mut it = ColorIter { colors, space, pos: 0, calls: 0, max_calls: colors.len() * 2 + 4096, hint };
             d.set_pixels(*sx, *sy, *ex, *ey, &mut it)
         }
         Op::DrawIter { pixels } => {
             let masked: Vec<(i32, i32, u32)> = pixels.iter().map(|&(x, y, c)| (x, y, c & (space - 1))).collect();
-            let mut it = PixIter { v: &masked, i: 0, calls: 0 };
+            let mut it = PixIter { v: &masked, i: 0, calls: 0, hint };
             d.draw_iter(&mut it)
         }
         Op::FillContiguous { rect, colors } => {
             let area = (rect.w as u64 * rect.h as u64).min(1 << 24);
-            let mut it = ColorIter { colors, space, pos: 0, calls: 0, max_calls: 4 * area + 8 * visible + 4096 };
+            let mut it = ColorIter { colors, space, pos: 0, calls: 0, max_calls: 4 * area + 8 * visible + 4096, hint };
             d.fill_contiguous(*rect, &mut it)
         }
         Op::FillSolid { rect, c } => d.fill_solid(*rect, *c & (space - 1)),
@@ -403,6 +419,7 @@ pub fn exec_case(case: &Case, opt: &ExecOpt) -> Outcome {
     world.record_words = opt.keep_words;
     world.faults = case.faults.clone();
     let wr = world.into_ref();
+    crate::world::CURRENT_WORLD.with(|c| *c.borrow_mut() = Some(wr.clone()));
     let buf_len = match cfg.transport {
         Transport::Spi { buf } => buf as usize,
         _ => 0,
@@ -743,7 +760,7 @@ pub fn exec_case(case: &Case, opt: &ExecOpt) -> Outcome {
                 }
             }
         } else {
-            guarded(|| call_op(dut.as_mut(), op, &mut clk, space, visible))
+            guarded(|| call_op(dut.as_mut(), op, &mut clk, space, visible, ((case.seed >> 8) as usize).wrapping_add(i) as u8))
         };
         let (events, issues, dirty) = {
             let mut w = wr.borrow_mut();
